@@ -1,5 +1,5 @@
 (* Corr/C12.v — correspondence runner for Resp.next *)
-From Coq Require Import List Arith Bool.
+From Coq Require Import List Arith Bool ZArith.
 From Verif Require Import Base.StrX Gen.StatusClass Model.C12_Retry Model.C12_Backoff.
 Import ListNotations.
 
@@ -10,7 +10,9 @@ Import ListNotations.
 Inductive case :=
 | mkCase (c_limit : nat) (c_ignore : bool) (c_nomirrors : bool) (c_mirrors : list host) (c_up : host)
          (c_replies : list reply) (c_attempts : list nat) (c_res : nat * nat)
-| mkBackoff (limit : nat) (events : list bev) (counters : list (nat * nat)).
+| mkBackoff (limit : nat) (events : list bev) (counters : list (nat * nat))
+(* mkOrder: the host the next request went to first, given which hosts are waiting for a release time *)
+| mkOrder (now : Z) (hosts : list bhost) (first : nat).
 
 Definition res_code (r : result) : nat * nat :=
   match r with Success h => (0, h) | RetryLimit => (1, 0) | AllFailed => (2, 0) | OutOfFuel => (9, 0) end.
@@ -22,6 +24,7 @@ Definition check (c : case) : bool :=
       let '(tr, r) := do_request c_limit c_ignore c_nomirrors c_mirrors c_up c_replies in
       list_eqb Nat.eqb tr c_attempts && Nat.eqb (fst (res_code r)) (fst c_res) && Nat.eqb (snd (res_code r)) (snd c_res)
   | mkBackoff limit events counters => list_eqb pair_eqb (bcounters limit b0 events) counters
+  | mkOrder now hosts first => match sort_bhosts now hosts with h :: _ => Nat.eqb (h_id (bh h)) first | [] => false end
   end.
 
 Fixpoint mismatches_from (i : nat) (cs : list case) : list nat :=
